@@ -134,6 +134,7 @@ def book? : List String → Option Bookkeeping
   | ["hs", rid, cpn, nx] => do pure (.cpHashSet (← Hex.decode rid) (← Hex.decode cpn) (nx == "1"))
   | ["hd", rid] => do pure (.cpHashDel (← Hex.decode rid))
   | ["rs", cp, fields] => do pure (.rootSet (← Hex.decode cp) (← hexList? fields))
+  | ["rh", cp, fields] => do pure (.rootHdel (← Hex.decode cp) (← hexList? fields))
   | ["ls", cp, tag, fields] => do pure (.latestSeed (← Hex.decode cp) (← Hex.decode tag) (← hexList? fields))
   | ["ld", cp, tag] => do pure (.latestDel (← Hex.decode cp) (← Hex.decode tag))
   | ["rd", cp] => do pure (.rootDel (← Hex.decode cp))
@@ -173,6 +174,10 @@ def ev? (tok : String) : Option Ev :=
           pure (.snapshot sid (← cmds? cs) ⟨.rdb, ← Hex.decode mv, []⟩)
         | _ => none
       else if k == 'b' then (book? rest).map (fun b => .book sid b)
+      else if k == 'r' then
+        match rest with
+        | [t, cs] => (cmds? cs).map (fun cmds => .toolRaw sid (t == "1") cmds)
+        | _ => none
       else none
   | _ => none
 
@@ -195,16 +200,17 @@ def runTrace (cfg : WCfg) : World → List Ev → List String → World × List 
     | .link src _ =>
       let l := w.link src
       let l' := w'.link src
-      let out :=
-        if l.halted.isSome then "halted"
-        else if let some err := l'.halted then "halt:" ++ perrStr err
-        else if l'.pos == l.pos then "idle"
+      let out : Option String :=
+        if l.halted.isSome then none
+        else if let some err := l'.halted then some ("halt:" ++ perrStr err)
         else if l'.emitted.length > l.emitted.length then
           match l'.emitted.getLast? with
-          | some (tg, em) => s!"emit:{tagStr tg}:{emitStr em}"
-          | none => "emit"
-        else "skip"
-      runTrace cfg w' es (s!"L{siteStr src}:{out}" :: acc)
+          | some (tg, em) => some s!"emit:{tagStr tg}:{emitStr em}"
+          | none => some "emit"
+        else none
+      match out with
+      | some o => runTrace cfg w' es (s!"L{siteStr src}:{o}" :: acc)
+      | none => runTrace cfg w' es acc
     | _ => runTrace cfg w' es acc
 
 def commitsStr (l : List (Tag × SiteId)) : String :=
@@ -246,7 +252,7 @@ def handle : List String → Option (List String)
       let cfg : WCfg := { redisA := ca, redisB := cb, parser := pcfg mode f [] [] }
       let w0 : World := { ab := { cp := cpAB }, ba := { cp := cpBA } }
       let (w, trace) := runTrace cfg w0 evs []
-      some [" ".intercalate trace ++ s!" ; commits={commitsStr w.commits} ; A={streamStr w.a.stream} ; B={streamStr w.b.stream}"]
+      some [" ".intercalate (if trace.isEmpty then ["."] else trace) ++ s!" ; commits={commitsStr w.commits} ; A={streamStr w.a.stream} ; B={streamStr w.b.stream}"]
     | _, _, _, _, _, _ => some ["bad-op"]
   | _ => none
 
